@@ -4,7 +4,7 @@ import collections
 from checks.common import UdpCheck, Monitor
 from checks.c04 import gen_dups, install_stream
 from world.attacker import Attacker
-from world.udpworld import conn_mod
+from world.udpworld import conn_mod, accepted
 from world import refmodel as R
 
 WIDTHS = (8, 16, 64, 128, 256)
@@ -18,8 +18,79 @@ class WindowMonitor(Monitor):
     arithmetic against plain modular arithmetic on every pair of values the history relates."""
     wants_build = True
     wants_recv = True
+    wants_msg = True
+    wants_app = True
+
+    def pre_recv(self, conn, hdr, datagram):
+        self.cur_msgs = []
+        return {"key": conn.session_key_bytes}
+
+    # message level, independent of the BitField calls: an application message that was never received before (whole
+    # history, not only the window) has to reach the application path; one received before and still inside the window
+    # has to be refused. (Received before AND older than the window: the structure cannot tell - not judged here.)
+    def on_recv_message(self, conn, typ, msgseq, payload, dup):
+        k = id(conn)
+        hist = self.msg_hist.get(k)
+        if hist is None:
+            hist = self.msg_hist[k] = (set(), R.WindowModel(256))
+            self._refs.append(conn)
+        s = int(msgseq)
+        ever, wm = hist
+        cls = "new" if s not in ever else wm.classify(s)
+        if s in ever and cls == "new":
+            cls = "old"             # seen long ago; the ring has moved on by more than half - cannot tell
+        if typ.value == 6:          # APP: its way into the application path is observable
+            self.cur_msgs.append([k, s, cls, False])
+        ever.add(s)
+        if len(ever) > 40000:       # the 16-bit ring comes round: forget the far past
+            ever.clear()
+            self.msg_hist[k] = (ever, wm)
+        wm.insert(s)
+
+    def on_recv_app(self, conn, msgseq, payload):
+        for e in self.cur_msgs:
+            if e[0] == id(conn) and e[1] == int(msgseq) and not e[3]:
+                e[3] = True
+                return
 
     def post_recv(self, conn, hdr, datagram, pre, result):
+        # an independent view of "received": a datagram that opens under the connection's key (reference AES-GCM) and is
+        # neither inside the window already nor older than it WAS received - the endpoint has to take it, whatever the
+        # distance to the newest one (up to half the ring); one that is inside the window already has to be refused
+        key = (pre or {}).get("key")
+        got = accepted(result)
+        for k, s_, cls, reached in self.cur_msgs:
+            self.outcomes["msg:%s:%s" % (cls, "taken" if reached else "refused")] += 1
+            if cls == "new" and not reached and result is True:
+                self.w.violation("message_never_received_before_was_discarded", {"conn": self.w.conn_name(conn), "msgseq": s_,
+                                                                                 "newest": self.msg_hist[k][1].newest},
+                                 key="message")
+            elif cls == "dup" and reached:
+                self.w.violation("duplicate_inside_window_not_flagged", {"conn": self.w.conn_name(conn), "msgseq": s_, "level": "message"},
+                                 key="message")
+        self.cur_msgs = []
+        if key and len(datagram) >= R.HDR + R.TAG:
+            h = R.dec_header(bytes(datagram[:R.HDR]))
+            if len(datagram) == R.HDR + h["length"] + R.TAG and R.open_gcm(key, bytes(datagram)) is not None:
+                rm = self.accepted_models.get(id(conn))
+                cls = rm.classify(h["seq"]) if rm is not None else "new"
+                self.outcomes["rx:%s:%s" % (cls, "taken" if got else "refused")] += 1
+                if cls == "new" and rm is not None and rm.newest and R.ring_diff(h["seq"], rm.newest) > 32:
+                    self.outcomes["rx:new:more-than-32-ahead"] += 1
+                if cls == "new" and not got:
+                    ahead = R.ring_diff(h["seq"], rm.newest) if rm is not None and rm.newest else 0
+                    self.w.violation("authentic_datagram_newer_than_window_refused",
+                                     {"conn": self.w.conn_name(conn), "seq": h["seq"], "newest": rm.newest if rm else 0, "ahead": ahead,
+                                      "result": str(result)},
+                                     key="ahead>32" if ahead > 32 else "inside-window-gap" if ahead < 0 else "ahead<=32")
+                elif cls == "dup" and got:
+                    self.w.violation("duplicate_inside_window_not_flagged", {"conn": self.w.conn_name(conn), "seq": h["seq"], "level": "datagram"},
+                                     key="datagram")
+            elif got:
+                # it entered the window (and from now on the ack fields name it) although the peer never sent it
+                self.w.violation("window_records_datagram_the_peer_never_sent",
+                                 {"conn": self.w.conn_name(conn), "seq": h["seq"], "type": h["type"], "len": len(datagram)},
+                                 key="type=%d" % h["type"])
         # the set of datagrams this endpoint ACCEPTED (authenticated, not duplicate, not stale) - kept independently
         # of the BitField calls, so that "the ack fields name exactly the datagrams received" is judged against what
         # was really received, not against whatever was inserted into the window
@@ -33,6 +104,8 @@ class WindowMonitor(Monitor):
     def attach(self, world):
         self.w = world
         self.accepted_models = {}  # id(conn) -> WindowModel(32) of accepted datagrams
+        self.msg_hist = {}         # id(conn) -> (every message seq ever seen, WindowModel(256))
+        self.cur_msgs = []
         self.models = {}          # id(BitField) -> WindowModel
         self.shadows = {}         # id(BitField) -> [(BitField(w), WindowModel(w))]
         self._refs = []
@@ -196,8 +269,13 @@ class C08(UdpCheck):
                 c = rng.randrange(n)
                 frm, to = rng.choice([("c%d" % c, "S"), ("S", "c%d" % c)])
                 t = round(1.0 + rng.random() * (cfg["duration"] - 2.0), 3)
-                if rng.random() < 0.5:
+                r = rng.random()
+                if r < 0.35:
                     plan.append({"op": "garbage", "global": True, "t": t, "frm": frm, "to": to, "kind": "header", "n": j})
+                elif r < 0.65:
+                    # CRC-only datagram of any type with a fresh sequence number far ahead of / inside the window
+                    plan.append({"op": "forge", "global": True, "t": t, "frm": frm, "to": to, "type": rng.choice([1, 2, 3, 4, 6]),
+                                 "inner": rng.choice([[6], [4], [2], [1], [6, 6]]), "seq_off": rng.choice([1, 2, 20, 40, 5000])})
                 else:
                     plan.append({"op": "mutate", "global": True, "t": t, "link": "%s>%s" % (frm, to), "how": "flip",
                                  "bit": 160 + rng.randrange(64), "back": rng.choice([0, 0, 1])})
